@@ -307,6 +307,10 @@ def main(argv=None):
         return cmd_lock(a)
     if a.what == "replay":
         return cmd_replay(a.arg)
+    if a.what == "selftest":
+        # soundness probes of the verifier: wrong contracts on tiny functions must not verify
+        import subprocess
+        return subprocess.call([sys.executable, os.path.join(ROOT, "tools", "unsound_probe.py")])
     code, lines, ev, _ = check_property(a.what, a.tier, a.seed, a.j)
     for ln in lines:
         print(ln)
